@@ -266,6 +266,51 @@ def correspondence(ctx, model_ok=True):
                                      "something the program can no longer reach is retained (%s vs %s)" % (da, db),
                              "name": "twin:" + name, "program": a, "twin": b, "census_a": ca, "census_b": cb,
                              "signature": "twin census differs: " + name, "failing_input": True})
+    # (d) what survives a collection vs what the reference interpreter can still REACH (language-level answer): for generated programs the
+    # data objects (vectors, tuples, maps, instances) left on the heap after a forced collection, relative to the empty program, must be
+    # exactly those reachable from the persistent roots in the reference interpreter's store after the same program
+    import progs as progs_mod, specdiff
+    spec_cmp = 0
+    if model_ok and specdiff.available():
+        n_rc = 2400 if ctx.thorough else 400
+        gen = progs_mod.generated(rng.fork("reach"), ["data", "closures", "classes", "fibers", "iteration", "exceptions", "alloc", "typed", "typed-try"], n_rc)
+        rc_progs = [("empty", "\n", {})] + [(n, s_, m) for n, s_, m, _ in gen] + [("twin:%s:%s" % (n, t), s_, {}) for n, a, b in TWINS for t, s_ in (("a", a), ("b", b))]
+        rc_lines = [vlib.case_line("rc%d" % i, progs_mod.module_steps(m, s_) + ["S:" + vlib.hx(s_), "G"], gc="default", steps=3000000) for i, (n, s_, m) in enumerate(rc_progs)]
+        rreal = vlib.run_real(runner, rc_lines)
+        try:
+            rspec = specdiff.run_spec(rc_lines)
+        except Exception as e:
+            broken.append("reference interpreter driver (census): %s" % e)
+            rspec = []
+        kinds = (("ObjVec", "vec"), ("ObjTuple", "tuple"), ("ObjHashMap", "map"), ("ObjInstance", "instance"))
+        base_r = base_s = None
+        for (name, src, mods), r, sp in zip(rc_progs, rreal, rspec):
+            try:
+                rs, ss = r["steps"], sp["steps"]
+                st_r, st_s = rs[-2], ss[-2]
+                cen_r, cen_s = census(rs[-1]["stats"]), ss[-1]
+            except Exception:
+                continue
+            if cen_s.get("status") != "census" or st_s.get("status") not in ("ok", "err") or st_s.get("status") != st_r.get("status"):
+                continue
+            if specdiff.budget_exhausted(progs_mod.canon_step(st_r)):
+                continue
+            dr = tuple(cen_r.get(a, 0) for a, _ in kinds)
+            ds = tuple(cen_s.get(b, 0) for _, b in kinds)
+            if name == "empty":
+                base_r, base_s = dr, ds
+                continue
+            if base_r is None:
+                break
+            spec_cmp += 1
+            rel_r = tuple(x - y for x, y in zip(dr, base_r))
+            rel_s = tuple(x - y for x, y in zip(ds, base_s))
+            if rel_r != rel_s:
+                what = "more" if sum(rel_r) > sum(rel_s) else "fewer"
+                failures.append({"what": "after a collection the heap holds %s data objects than the program can reach: (vectors, tuples, maps, instances) on the heap %s, "
+                                         "reachable in the reference interpreter %s" % (what, rel_r, rel_s), "name": name, "program": src,
+                                 "modules": {k: v for k, v in mods.items() if k in src},
+                                 "signature": "heap vs reachable: " + what, "failing_input": True})
     # transient programs vs the empty program
     n_tr = 20 if ctx.thorough else 6
     tr_srcs = [transient_program(rng.fork("t%d" % i)) for i in range(n_tr)]
@@ -299,7 +344,7 @@ def correspondence(ctx, model_ok=True):
         "paced_collections_observed": total_collections,
         "max_bytes_over_threshold_between_collections": max_over,
         "traces_validated_against_impl": len(per_prog),
-        "census_comparisons": cen_checked, "byte_counter_recounts": recounts,
+        "census_comparisons": cen_checked, "programs_census_vs_reference_reachability": spec_cmp, "byte_counter_recounts": recounts,
         "programs": len(pace_progs) + 2 * n_cen + n_tr,
     }
     return {"failures": failures, "coverage": cov, "broken": broken}
